@@ -291,6 +291,7 @@ func runScenario(w *W, sc *Scenario) {
 		}
 	}()
 	sc.Run(w)
+	w.Hygiene()
 }
 
 func inputHash(tf simrt.TapeFile) string {
